@@ -610,7 +610,23 @@ func c13Run(c *Ctx, cs c13Case) {
 		if !errors.Is(err, context.Canceled) {
 			fail("error-does-not-wrap-context-error", fmt.Sprintf("SendRemainingPackets returned %v", err))
 		}
-	case "close", "close-twice":
+	case "close", "close-twice", "reset-then-close":
+		if cs.Action == "reset-then-close" {
+			// the application resets the channel (as after a completed
+			// communication) whatever the receive side holds, then a
+			// receive with a cancelled context, then Close
+			rc := c13Go(func() { e.ch.Reset() })
+			if !bounded(rc, "Channel.Reset", 10*time.Second) {
+				return
+			}
+			cctx, ccancel := context.WithCancel(context.Background())
+			ccancel()
+			nc := c13Go(func() { _, _ = e.ch.NextPackage(cctx, true) })
+			if !bounded(nc, "NextPackage with a cancelled context after Reset", 10*time.Second) {
+				return
+			}
+			r.Count("reset_then_close_cases", 1)
+		}
 		var err error
 		call := c13Go(func() { err = e.ch.Close() })
 		if !bounded(call, "Channel.Close", closeBudget) {
@@ -841,7 +857,7 @@ func runC13(c *Ctx) {
 	if !quick {
 		fills = []int{0, 1, 2, 3, 4, 5, 6}
 	}
-	simple := []string{"next-cancelled-before", "until-cancelled-before", "until-drain-cancelled-before", "until-drain-cancel-during", "next-cancel-during", "next-conn-cancel-during", "next-conn-cancelled-before", "send-cancelled", "send-conn-cancelled", "flush-cancelled-exact-multiple", "flush-conn-cancelled-exact-multiple", "close", "close-twice", "conn-close", "close-vs-blocked-receive", "close-vs-reader-in-read"}
+	simple := []string{"next-cancelled-before", "until-cancelled-before", "until-drain-cancelled-before", "until-drain-cancel-during", "next-cancel-during", "next-conn-cancel-during", "next-conn-cancelled-before", "send-cancelled", "send-conn-cancelled", "flush-cancelled-exact-multiple", "flush-conn-cancelled-exact-multiple", "close", "close-twice", "reset-then-close", "conn-close", "close-vs-blocked-receive", "close-vs-reader-in-read"}
 	for _, f := range fills {
 		for _, logical := range []bool{false, true} {
 			for _, tf := range []bool{false, true} {
